@@ -80,7 +80,10 @@ def gen_case(rng, cid, mode):
                 seen.add(key)
                 uniq.append(h)
         hs = [h for h in hs if h["ovr"]["k"] != "const"] + uniq
-    return {"id": cid, "script": sc, "arg": rng.randint(0, 40), "handlers": hs}
+    case = {"id": cid, "script": sc, "arg": rng.randint(0, 40), "handlers": hs}
+    if mode == "api" and rng.random() < 0.5:
+        case["forkpre"] = True
+    return case
 
 
 def run_model(out):
